@@ -106,6 +106,7 @@ func TestVerifC10Lifecycle(t *testing.T) {
 		vRemapProcs(&cfg)
 		cfg.exts = vGenExts(rnd)
 		vGenShared(rnd, &cfg)
+		vGenSharedMore(rnd, &cfg)
 
 		out.Linef("case %d", c)
 		vEmitCfg(out, cfg)
@@ -133,11 +134,11 @@ func TestVerifC10Lifecycle(t *testing.T) {
 			if len(w.log) > 0 {
 				out.Linef("viol sig=C10/reject/component-started-though-build-failed %s", vHex(vLogString(w.log)))
 			}
-			if usesConn || extDep || cfg.shared != 0 {
+			if usesConn || extDep || (cfg.shared != 0 || cfg.sharedExp != 0 || cfg.sharedConn != 0) {
 				out.Linef("nt")
 			}
 			out.Linef("stat rejected_%s 1", strings.SplitN(cls, ":", 2)[0])
-			if cfg.shared != 0 {
+			if cfg.shared != 0 || cfg.sharedExp != 0 || cfg.sharedConn != 0 {
 				out.Linef("stat shared 1")
 			}
 			out.Linef("stat exts %d", len(cfg.exts))
@@ -153,7 +154,7 @@ func TestVerifC10Lifecycle(t *testing.T) {
 
 		labels := vLabels(w)
 		pickLabels := func() []string {
-			if rnd.IntN(10) >= 3 || len(labels) == 0 {
+			if rnd.IntN(10) >= 3 || len(labels) == 0 || cfg.noFail {
 				return nil
 			}
 			var o []string
@@ -225,7 +226,7 @@ func TestVerifC10Lifecycle(t *testing.T) {
 		} else {
 			out.Linef("obs shutdown ok")
 		}
-		if usesConn || extDep || len(fstart)+len(fstop) > 0 || cfg.shared != 0 {
+		if usesConn || extDep || len(fstart)+len(fstop) > 0 || (cfg.shared != 0 || cfg.sharedExp != 0 || cfg.sharedConn != 0) {
 			out.Linef("nt")
 		}
 		out.Linef("stat built 1")
@@ -233,7 +234,7 @@ func TestVerifC10Lifecycle(t *testing.T) {
 			out.Linef("stat startfail 1")
 		}
 		out.Linef("stat stopfail %d", len(stopFails))
-		if cfg.shared != 0 {
+		if cfg.shared != 0 || cfg.sharedExp != 0 || cfg.sharedConn != 0 {
 			out.Linef("stat shared 1")
 		}
 		out.Linef("stat exts %d", len(cfg.exts))
